@@ -658,4 +658,9 @@ def apply_rules(text, rules, ed, base=0, regex_map=None):
             e = match_close(st, i + 2)
             ed.replace(base + t.start, base + st[e].end, "R5", "verif_fmt()")
             i = e
+        elif "R8" in rules and is_id(t, "println") and i + 2 < n and is_p(st[i + 1], "!") and is_p(st[i + 2], "("):
+            # the print and the evaluation of its arguments are dropped (stdout is outside every property)
+            e = match_close(st, i + 2)
+            ed.replace(base + t.start, base + st[e].end, "R8", "verif_print()")
+            i = e
         i += 1
